@@ -93,16 +93,17 @@ theorem ext_update (x : Fin n → ℝ) (j : Fin n) (t : ℝ) :
 
 /-- the generic lemma for a model map of length `n`: lower-triangular dependence -/
 theorem lift_logdet_lower (F : (Nat → ℝ) → Nat → ℝ) (d : (Nat → ℝ) → Nat → ℝ)
-    (hdep : ∀ (X : Nat → ℝ) (i j : Nat), i < j → ∀ t, F (Function.update X j t) i = F X i)
-    (hdiag : ∀ (X : Nat → ℝ) (i : Nat), HasDerivAt (fun t => F (Function.update X i t) i) (d X i) (X i))
+    (hdep : ∀ (X : Nat → ℝ) (i j : Nat), i < j → j < n → ∀ t, F (Function.update X j t) i = F X i)
+    (hdiag : ∀ (X : Nat → ℝ) (i : Nat), i < n →
+      HasDerivAt (fun t => F (Function.update X i t) i) (d X i) (X i))
     (x : Fin n → ℝ) (hne : ∀ i : Fin n, d (ext x) i.val ≠ 0) :
     Real.log |(jac (lift F) x).det| = ∑ i : Fin n, Real.log |d (ext x) i.val| := by
   apply tri_logdet_lower (lift F) ?_ x (fun i => d (ext x) i.val) ?_ hne
   · intro i j hij y t
     simp only [lift, ext_update]
-    exact hdep (ext y) i.val j.val hij t
+    exact hdep (ext y) i.val j.val hij j.isLt t
   · intro i
-    have := hdiag (ext x) i.val
+    have := hdiag (ext x) i.val i.isLt
     simp only [lift, ext_update]
     simpa using this
 
